@@ -11,6 +11,7 @@ import GeckoModel.Model.Partial
 import GeckoModel.Properties.C16
 import GeckoModel.Proofs.Coop
 import GeckoModel.Generated.Skeletons
+import GeckoModel.Model.Coop
 
 namespace GeckoModel.C05
 open GeckoModel GeckoModel.Generated
@@ -212,5 +213,21 @@ example : "queue_send" ∈ actions .call ackAndDecode ∧ "self.struct.replace_s
   decide +kernel
 
 end Atomic
+
+/-- what a synchronous method / coroutine writes into its own object and which of its own methods or attributes it calls -/
+private def stateOf (sk : Coop.Sk) : List String × List String :=
+  (Coop.selfStateWritten sk, (Coop.actions .call sk).filter Coop.isSelfState)
+
+/-- **the partial-update path remembers nothing between messages** (state inventory over the regenerated skeletons): both
+long-lived handlers write only the sequence number (and, the awaitable one, the fresh change list) and touch only the counter and
+the change list; both apply callbacks write nothing and only patch the block.  A remembered last message, a de-duplication table
+or a cached decode would appear here as a new attribute -/
+theorem partial_update_path_state_inventory :
+    stateOf Skeletons.sk_driver_protocol_statusblock__GeckoAsyncPartialStatusBlockProtocolHandler_async_handle =
+      (["self.sequence", "self.changes"], ["self._protocol.get_and_increment_sequence_counter", "self.changes.append"]) ∧
+    stateOf Skeletons.sk_driver_protocol_statusblock__GeckoPartialStatusBlockProtocolHandler_handle =
+      (["self.sequence"], ["self._socket.get_and_increment_sequence_counter", "self.changes.append"]) ∧
+    stateOf Skeletons.sk_async_spa__GeckoAsyncSpa__async_on_partial_status_update = ([], ["self.struct.replace_status_block_segment"]) ∧
+    stateOf Skeletons.sk_spa__GeckoSpa__on_partial_status_update = ([], ["self.struct.replace_status_block_segment"]) := by decide +kernel
 
 end GeckoModel.C05
